@@ -1,6 +1,182 @@
-(* C15 — sorting and searching helpers (placeholder while the proofs are built) *)
-From Typ Require Import Lib.Base Slices.SortSearch Slices.SortSearchProofs Slices.Sort.
+(* C15 — Sorting and searching helpers order correctly, stably where promised.
+   Statements only; every proof is [exact] of a lemma from
+   Slices/SortSearchProofs.v or Slices/SortProofs.v.
 
-Theorem C15_sort_contract_satisfiable : sort_spec insertion_sort /\ stable_spec insertion_sort.
-Proof. exact (conj insertion_sort_sort_spec insertion_sort_stable_spec). Qed.
-Print Assumptions C15_sort_contract_satisfiable.
+   Quantifiers: every element type, every slice (all lengths, all duplicate
+   patterns), every less function with the stated order property, every
+   target, every generator state. Trusted standard library, as hypotheses
+   with contracts that are proved satisfiable (C15_contracts_satisfiable):
+   [sort_Sort] = sort.Sort ([sort_spec]), [sort_Stable] = sort.Stable
+   ([stable_spec]), [shuffle_swaps] = the index pairs rand.Shuffle asks its
+   swap callback for ([shuffle_spec]: all within [0,n)). The adapters
+   sortOrdered / sortLess (Len, Less, Swap), sort.Reverse's flipped Less, and
+   the sort.Search loop are transcribed code, not trusted.
+   [le_of less a b] = less b a = false (ascending); [ge_of less a b] = less a b
+   = false (descending); [eqv less a b] = neither is less than the other. *)
+From Typ Require Import Lib.Base Slices.SortSearch Slices.SortSearchProofs Slices.Sort Slices.SortProofs.
+
+(* The contracts assumed of sort.Sort, sort.Stable and rand.Shuffle are
+   satisfiable: by the insertion sort over sort.Interface and the recorded-swaps
+   generator that the correspondence check runs the model with. *)
+Theorem C15_contracts_satisfiable :
+  sort_spec insertion_sort /\ stable_spec insertion_sort /\ shuffle_spec list_shuffle_swaps.
+Proof. exact (conj insertion_sort_sort_spec (conj insertion_sort_stable_spec list_shuffle_swaps_spec)). Qed.
+Print Assumptions C15_contracts_satisfiable.
+
+(* The adapters present their slice to the sorter: Len is its length, Less(i,j)
+   compares elements i and j with < resp. the given less, Swap exchanges them;
+   sort.Reverse presents the same sequence under the flipped order. *)
+Theorem C15_adapters : forall (T : Type) (lt less : T -> T -> bool),
+  represents (sortOrdered lt) (fun l => l) lt /\
+  represents (sortLess less) (fun l => l) less /\
+  represents (sort_Reverse (sortOrdered lt)) (fun l => l) (flip_less lt) /\
+  represents (sort_Reverse (sortLess less)) (fun l => l) (flip_less less).
+Proof.
+  exact (fun T lt less => conj (sortOrdered_represents lt) (conj (sortLess_represents less)
+    (conj (sort_Reverse_represents _ _ _ (sortOrdered_represents lt))
+          (sort_Reverse_represents _ _ _ (sortLess_represents less))))).
+Qed.
+Print Assumptions C15_adapters.
+
+(* Sort: a permutation of the former contents, ascending under <. *)
+Theorem C15_sort : forall (T : Type) (sort_Sort : forall St, Interface St -> St -> result St),
+  sort_spec sort_Sort -> forall lt : T -> T -> bool, StrictWeakOrder lt -> forall l,
+  exists l', Sort lt sort_Sort l = Ok l' /\ Permutation l l' /\ Sorted (le_of lt) l'.
+Proof. exact @Sort_spec. Qed.
+Print Assumptions C15_sort.
+
+(* SortFunc: a permutation, ascending under the given less. *)
+Theorem C15_sort_func : forall (T : Type) (sort_Sort : forall St, Interface St -> St -> result St),
+  sort_spec sort_Sort -> forall less : T -> T -> bool, StrictWeakOrder less -> forall l,
+  exists l', SortFunc sort_Sort l less = Ok l' /\ Permutation l l' /\ Sorted (le_of less) l'.
+Proof. exact @SortFunc_spec. Qed.
+Print Assumptions C15_sort_func.
+
+(* SortDesc: a permutation, descending under <. *)
+Theorem C15_sort_desc : forall (T : Type) (sort_Sort : forall St, Interface St -> St -> result St),
+  sort_spec sort_Sort -> forall lt : T -> T -> bool, StrictWeakOrder lt -> forall l,
+  exists l', SortDesc lt sort_Sort l = Ok l' /\ Permutation l l' /\ Sorted (ge_of lt) l'.
+Proof. exact @SortDesc_spec. Qed.
+Print Assumptions C15_sort_desc.
+
+(* SortDescFunc: a permutation, descending under the given less. *)
+Theorem C15_sort_desc_func : forall (T : Type) (sort_Sort : forall St, Interface St -> St -> result St),
+  sort_spec sort_Sort -> forall less : T -> T -> bool, StrictWeakOrder less -> forall l,
+  exists l', SortDescFunc sort_Sort l less = Ok l' /\ Permutation l l' /\ Sorted (ge_of less) l'.
+Proof. exact @SortDescFunc_spec. Qed.
+Print Assumptions C15_sort_desc_func.
+
+(* SortStableFunc returns THE stable sort of the slice ... *)
+Theorem C15_sort_stable_func : forall (T : Type) (sort_Stable : forall St, Interface St -> St -> result St),
+  stable_spec sort_Stable -> forall less : T -> T -> bool, StrictWeakOrder less -> forall l,
+  SortStableFunc sort_Stable l less = Ok (isort less l).
+Proof. exact @SortStableFunc_spec. Qed.
+Print Assumptions C15_sort_stable_func.
+
+(* ... which is a permutation, ascending, with every class of elements the
+   order cannot distinguish in its original relative order ... *)
+Theorem C15_stable_sort_is_stable : forall (T : Type) (less : T -> T -> bool), StrictWeakOrder less -> forall l,
+  Permutation l (isort less l) /\ Sorted (le_of less) (isort less l) /\
+  (forall a, filter (eqv less a) (isort less l) = filter (eqv less a) l).
+Proof. exact @isort_is_stable_sort. Qed.
+Print Assumptions C15_stable_sort_is_stable.
+
+(* ... and the only list with these three properties. *)
+Theorem C15_stable_sort_unique : forall (A : Type) (less : A -> A -> bool), StrictWeakOrder less ->
+  forall l1 l2, Sorted (le_of less) l1 -> Sorted (le_of less) l2 -> Permutation l1 l2 ->
+  (forall a, filter (eqv less a) l1 = filter (eqv less a) l2) -> l1 = l2.
+Proof. exact @stable_sort_unique. Qed.
+Print Assumptions C15_stable_sort_unique.
+
+(* SortStableDescFunc returns the stable sort under the flipped order: a
+   permutation, descending, indistinguishable elements in original order. *)
+Theorem C15_sort_stable_desc_func : forall (T : Type) (sort_Stable : forall St, Interface St -> St -> result St),
+  stable_spec sort_Stable -> forall less : T -> T -> bool, StrictWeakOrder less -> forall l,
+  SortStableDescFunc sort_Stable l less = Ok (isort (flip_less less) l).
+Proof. exact @SortStableDescFunc_spec. Qed.
+Print Assumptions C15_sort_stable_desc_func.
+
+Theorem C15_stable_desc_sort_is_stable : forall (T : Type) (less : T -> T -> bool), StrictWeakOrder less -> forall l,
+  Permutation l (isort (flip_less less) l) /\ Sorted (ge_of less) (isort (flip_less less) l) /\
+  (forall a, filter (eqv less a) (isort (flip_less less) l) = filter (eqv less a) l).
+Proof. exact @isort_flip_is_stable_desc_sort. Qed.
+Print Assumptions C15_stable_desc_sort_is_stable.
+
+(* sort.Search (transcribed loop): least index from which a monotone predicate holds. *)
+Theorem C15_sort_search_lower_bound : forall (f : Z -> result bool) (g : Z -> bool) (n : Z),
+  (forall h, (0 <= h < n)%Z -> f h = Ok (g h)) ->
+  (forall a b, (0 <= a <= b)%Z -> (b < n)%Z -> g a = true -> g b = true) ->
+  (0 <= n)%Z ->
+  exists r, sort_search n f = Ok r /\ (0 <= r <= n)%Z /\
+    (forall k, (0 <= k < r)%Z -> g k = false) /\ (forall k, (r <= k < n)%Z -> g k = true).
+Proof. exact sort_search_lower_bound. Qed.
+Print Assumptions C15_sort_search_lower_bound.
+
+(* BinarySearch on an ascending slice of an ordered type (< a strict total
+   order, >= its negation): returns r, the smallest index whose element is not
+   less than the target (every element before r is less, none from r on is;
+   r = len when there is none); the first match if the target is present,
+   else the insertion point (which does not hold the target). *)
+Theorem C15_binary_search : forall (T : Type) (lt ge : T -> T -> bool),
+  StrictTotalOrder lt -> (forall a b, ge a b = negb (lt a b)) ->
+  forall (l : list T) (v : T), Sorted (le_of lt) l ->
+  exists r : nat, BinarySearch ge l v = Ok (Z.of_nat r) /\ r <= length l /\
+    (forall k x, k < r -> nth_error l k = Some x -> lt x v = true) /\
+    (forall k x, r <= k -> nth_error l k = Some x -> lt x v = false) /\
+    (In v l -> first_occurrence l v r) /\
+    (~ In v l -> nth_error l r <> Some v).
+Proof. exact @BinarySearch_spec. Qed.
+Print Assumptions C15_binary_search.
+
+(* BinarySearchFunc: when less holds on a prefix of the slice and nowhere
+   after it, the result is the length of that prefix (the smallest index whose
+   element is not less) ... *)
+Theorem C15_binary_search_func : forall (T : Type) (less1 : T -> bool) (l : list T), partitioned less1 l ->
+  exists r : nat, BinarySearchFunc l less1 = Ok (Z.of_nat r) /\ partition_point (fun x => negb (less1 x)) l r.
+Proof. exact @BinarySearchFunc_spec. Qed.
+Print Assumptions C15_binary_search_func.
+
+(* ... which is the case for "a is less than the target" on an ascending slice. *)
+Theorem C15_ascending_is_partitioned : forall (T : Type) (less : T -> T -> bool), StrictWeakOrder less ->
+  forall (l : list T) (target : T), Sorted (le_of less) l -> partitioned (fun a => less a target) l.
+Proof. exact @sorted_partitioned. Qed.
+Print Assumptions C15_ascending_is_partitioned.
+
+(* Shuffle and ShuffleRand return normally and leave a permutation. *)
+Theorem C15_shuffle_rand_perm : forall (T G : Type) (shuffle_swaps : G -> Z -> list (Z * Z)),
+  shuffle_spec shuffle_swaps -> forall (l : list T) (g : G),
+  exists l', ShuffleRand shuffle_swaps l g = Ok l' /\ Permutation l l'.
+Proof. exact @ShuffleRand_perm. Qed.
+Print Assumptions C15_shuffle_rand_perm.
+
+Theorem C15_shuffle_perm : forall (T G : Type) (shuffle_swaps : G -> Z -> list (Z * Z)),
+  shuffle_spec shuffle_swaps -> forall (l : list T) (g : G),
+  exists l', Shuffle shuffle_swaps g l = Ok l' /\ Permutation l l'.
+Proof. exact @Shuffle_perm. Qed.
+Print Assumptions C15_shuffle_perm.
+
+(* ShuffleRand is a deterministic function of the supplied generator: it
+   depends on it only through the swaps rand.Shuffle derives from it. *)
+Theorem C15_shuffle_rand_deterministic : forall (T G : Type) (shuffle_swaps : G -> Z -> list (Z * Z))
+  (l : list T) (g1 g2 : G), shuffle_swaps g1 (lenZ l) = shuffle_swaps g2 (lenZ l) ->
+  ShuffleRand shuffle_swaps l g1 = ShuffleRand shuffle_swaps l g2.
+Proof. exact @ShuffleRand_deterministic. Qed.
+Print Assumptions C15_shuffle_rand_deterministic.
+
+(* Non-vacuity: the order hypotheses hold for the harness's orders; concrete runs with ties. *)
+Theorem C15_hypotheses_satisfiable :
+  StrictTotalOrder Z.ltb /\ StrictWeakOrder (fun a b : Z * Z => (fst a <? fst b)%Z) /\
+  (forall a b : Z, (a >=? b)%Z = negb (a <? b)%Z).
+Proof. exact (conj Z_ltb_sto (conj Z_pair_key_swo Z_geb_ltb)). Qed.
+Print Assumptions C15_hypotheses_satisfiable.
+
+Example C15_example :
+  let key := fun a b : Z * Z => (fst a <? fst b)%Z in
+  SortStableFunc insertion_sort [(2,0);(1,1);(2,2);(1,3);(3,4)]%Z key = Ok [(1,1);(1,3);(2,0);(2,2);(3,4)]%Z /\
+  SortStableDescFunc insertion_sort [(2,0);(1,1);(2,2);(1,3);(3,4)]%Z key = Ok [(3,4);(2,0);(2,2);(1,1);(1,3)]%Z /\
+  SortDesc Z.ltb insertion_sort [2;1;2;3]%Z = Ok [3;2;2;1]%Z /\
+  BinarySearch (fun a b => (a >=? b)%Z) [1;3;3;3;7]%Z 3%Z = Ok 1%Z /\
+  BinarySearch (fun a b => (a >=? b)%Z) [1;3;3;3;7]%Z 4%Z = Ok 4%Z /\
+  BinarySearch (fun a b => (a >=? b)%Z) [1;3;3;3;7]%Z 9%Z = Ok 5%Z /\
+  ShuffleRand list_shuffle_swaps [10;20;30;40]%Z [(3,1);(2,0);(1,1)]%Z = Ok [30;40;10;20]%Z.
+Proof. vm_compute. repeat split. Qed.
